@@ -16,7 +16,10 @@ Inductive act :=
 | ASetAdv (v : Z)                                     (* attr_set advance.x *)
 | ASetShift (v : Z).                                  (* attr_set shift.x *)
 
-Record rule := mkrule { r_pre : nat; r_pat : list (list N); r_acts : list (list act) }.
+(* an optional rule constraint: the advance of window item [c_item] compared with a constant (cntxt_item + push_slot_attr) *)
+Inductive cmp := CLt | CGt | CEq.
+Record con := mkcon { c_item : nat; c_cmp : cmp; c_val : Z }.
+Record rule := mkrule { r_pre : nat; r_pat : list (list N); r_acts : list (list act); r_con : option con }.
 Definition r_sort (r : rule) : nat := length (r_pat r).
 
 Section Pass.
@@ -34,8 +37,17 @@ Section Pass.
     end.
 
   (* rule r matches with the cursor at index i of l: its window starts r_pre r slots before the cursor *)
+  Definition con_holds (c : option con) (window : list slot) : bool :=
+    match c with
+    | None => true
+    | Some k => match nth_error window (c_item k) with
+                | None => true                                    (* an item outside the rule: the test is never reached *)
+                | Some s => match c_cmp k with CLt => (s_adv s <? c_val k)%Z | CGt => (c_val k <? s_adv s)%Z | CEq => (s_adv s =? c_val k)%Z end
+                end
+    end.
   Definition rule_matches (r : rule) (l : list slot) (i : nat) : bool :=
-    Nat.leb (r_pre r) i && Nat.ltb (r_pre r) (r_sort r) && matches_from (r_pat r) (skipn (i - r_pre r) l).
+    Nat.leb (r_pre r) i && Nat.ltb (r_pre r) (r_sort r) && matches_from (r_pat r) (skipn (i - r_pre r) l)
+    && con_holds (r_con r) (firstn (r_sort r) (skipn (i - r_pre r) l)).
 
   (* best rule: longest sort key, then lowest index *)
   Fixpoint select (rules : list rule) (l : list slot) (i : nat) (k : nat) (best : option (nat * rule)) : option (nat * rule) :=
